@@ -1105,6 +1105,9 @@ class FortranFile:
                     )
                     tmp_no_comm = tmp_line.split("!")[0]
                     cont_ind = tmp_no_comm.rfind("&")
+                    # A preprocessor directive never continues onto the next line
+                    if FRegex.PP_ANY.match(tmp_line):
+                        cont_ind = -1
                     opt_cont_match = FRegex.FREE_CONT.match(tmp_no_comm)
                     if opt_cont_match:
                         if cont_ind == opt_cont_match.end(0) - 1:
@@ -1135,6 +1138,8 @@ class FortranFile:
             else:
                 line_stripped = strip_strings(curr_line, maintain_len=True)
                 iAmper = line_stripped.find("&")
+                if FRegex.PP_ANY.match(curr_line):
+                    iAmper = -1
                 iComm = line_stripped.find("!")
                 if iComm < 0:
                     iComm = iAmper + 1
@@ -1366,6 +1371,10 @@ class FortranFile:
             if line_no in pp_defines:
                 do_skip = True
             if do_skip:
+                continue
+            # Preprocessor directives are not statements, `&&` in a condition
+            # must not be mistaken for a line continuation
+            if FRegex.PP_ANY.match(line):
                 continue
             # Get full line, seek forward for code lines
             # @note line_no-1 refers to the array index for the current line
